@@ -110,7 +110,8 @@ fn body() {
         |x, y, z| { z == (x, y), q == [p0, z], y != p1 }
     });
     for r in query.run().take(LIMIT) {
-        let s = format!("{}", r.q);
+        let mut s = format!("{} {}", r.q, r);
+        for c in r.q.constraints() { s.push_str(&format!(" {}", c)); }
         for tok in s.split(|c: char| !(c.is_alphanumeric() || c == '_')) {
             assert!(!["x"].contains(&tok), "answer `{}` mentions the program variable {}", s, tok);
         }
